@@ -33,7 +33,8 @@ Record case := {
   k_is : list bool; k_as : option (Z * string);
   k_http : ohttp; k_grpc : ogrpc;
   k_dec : ohttp; k_prx : ohttp; k_env : ogrpc;
-  k_up : list (string * string) }.   (* what the mechanism handed to ctx.AddHeaderForUpstream (handled scenarios) *)
+  k_up : list (string * string);
+  k_mk : Z * bool }.   (* a redirect handler creation probe: the code tried, and whether the real constructor accepted it *)   (* what the mechanism handed to ctx.AddHeaderForUpstream (handled scenarios) *)
 
 Definition to_scenario (s : oscenario) (e : err) : scenario :=
   match s with
@@ -101,6 +102,8 @@ Definition corr (fixed : bool) (k : case) : bool :=
   let c := k_cfg k in let o := k_or k in let e := k_err k in
   let sc := to_scenario (k_sc k) e in
   list_eqb pair_eqb (model_up (k_sc k) e) (k_up k) &&
+  Bool.eqb (match create_redirect (fst (k_mk k)) (Some "x"%string) with Some _ => true | None => false end) (snd (k_mk k)) &&
+  match k_sc k with SHandled (MRedirect code to) => redirect_code_ok code | _ => true end &&
   list_eqb Bool.eqb (map (fun t => is_ t e) targets) (k_is k) &&
   as_eqb (as_redirect e) (k_as k) &&
   hresp_match (http_handle c o e no_hdrs) (k_http k) &&
@@ -184,6 +187,8 @@ Definition prop (k : case) : bool :=
   let c := k_cfg k in let o := k_or k in let e := k_err k in
   (* the translators on the error value itself *)
   http_answer_ok c o e (k_http k) && grpc_answer_ok c o e (k_grpc k) && same_answer (k_http k) (k_grpc k) &&
+  (* a redirect handler the real constructor accepts never answers with a success status *)
+  (if snd (k_mk k) then negb (success_like (redirect_status (fst (k_mk k)))) else true) &&
   (* through the three entry points *)
   match k_sc k with
   | SError =>
@@ -228,6 +233,6 @@ Definition mkcfg v a z m p n i :=
   {| c_verbose := v; ov_authn := a; ov_authz := z; ov_comm := m; ov_precond := p; ov_norule := n; ov_internal := i |}.
 Definition mkor h g j x p := {| o_neg_http := h; o_neg_grpc := g; o_json_ne := j; o_xml_ne := x; o_plain_ne := p |}.
 Definition hd l w c f := {| oh_loc := l; oh_www := w; oh_ct := c; oh_wf := f |}.
-Definition mkcase c o e s i a h g d p v u :=
+Definition mkcase c o e s i a h g d p v u m :=
   {| k_cfg := c; k_or := o; k_err := e; k_sc := s; k_is := i; k_as := a; k_http := h; k_grpc := g;
-     k_dec := d; k_prx := p; k_env := v; k_up := u |}.
+     k_dec := d; k_prx := p; k_env := v; k_up := u; k_mk := m |}.
